@@ -31,7 +31,7 @@ def run_one(m):
             if s.count(ed["old"]) != 1:
                 return (m["id"], "BROKEN-MUTANT", "old text occurs %d times in %s" % (s.count(ed["old"]), ed["file"]))
             open(p, "w").write(s.replace(ed["old"], ed["new"]))
-        env = dict(os.environ, PV_REPO=repo, PV_OUT=os.path.join(d, "out"))
+        env = dict(os.environ, PV_REPO=repo, PV_OUT=os.path.join(d, "out"), PV_CACHE=os.path.join(d, "cache"))
         outs = []
         status = "OK"
         for prop in m["props"]:
